@@ -83,6 +83,8 @@ class Cfg:
         self.setcells = True
         self.max_cleanups = 4
         self.assert_fn = True
+        self.odd_skip_reasons = True
+        self.exotic_patch_targets = True
         self.__dict__.update(kw)
 
 
@@ -138,13 +140,26 @@ class _Gen:
         kind = t.choice("faults", cfg.kinds, "raise-kind")
         extra = None
         if kind == "multi":
-            n = 1 + t.draw("faults", 3, "multi-n")
-            extra = [[t.choice("faults", MULTI_PART_KINDS, "multi-part"), self.marker()] for _ in range(n)]
+            extra = self.multi_parts(0)
+        elif kind == "skip" and cfg.odd_skip_reasons and t.chance("faults", 1, 4, "odd-skip-reason"):
+            extra = t.choice("faults", ("int", "none", "obj"), "skip-reason-type")
         elif kind == "user":
             extra = t.choice("faults", sorted(USER_CLASSES), "user-class")
         elif kind == "xfail":
             extra = self.marker()   # marker of the assertion behind the expected failure
         return self.op(["raise", kind, self.marker(), extra])
+
+    def multi_parts(self, depth):
+        """Parts of a MultipleExceptions: [kind, marker] or ["multi", [parts]] (nested); may be empty."""
+        t = self.t
+        n = t.weighted("faults", [(3, 1), (3, 2), (2, 3), (1, 0)], "multi-n")
+        parts = []
+        for _ in range(n):
+            if depth == 0 and t.chance("faults", 1, 5, "nested-multi"):
+                parts.append(["multi", self.multi_parts(1)])
+            else:
+                parts.append([t.choice("faults", MULTI_PART_KINDS, "multi-part"), self.marker()])
+        return parts
 
     def mismatch(self):
         t = self.t
@@ -207,7 +222,7 @@ class _Gen:
             return self.op(["assert_fn", self.mismatch()])
         if what == "patch":
             return self.op(["patch", t.draw("program", self.nobjs, "obj"),
-                            t.choice("program", ("a", "b"), "attr"), "V%d" % self.next_op])
+                            t.choice("program", ("a", "b", "c") if cfg.exotic_patch_targets else ("a", "b"), "attr"), "V%d" % self.next_op])
         if what == "fixture":
             fid = "f%d" % len(self.fixtures)
             nd = t.draw("program", 3, "fx-details")
@@ -330,10 +345,39 @@ class ScriptedMatcher:
 
 
 class Scratch:
-    """Object whose attributes get patched: 'a' exists, 'b' does not."""
+    """Object whose attributes get patched: 'a' exists on the instance, 'b' does not exist,
+    'c' exists on the class only."""
+
+    c = ("orig-class-c",)
 
     def __init__(self, i):
         self.a = ("orig-a", i)
+
+
+class SlotScratch:
+    """'a' is a filled slot, 'b' an empty one, 'c' a property with a setter and no deleter."""
+
+    __slots__ = ("a", "b", "_c")
+
+    def __init__(self, i):
+        self.a = ("orig-slot-a", i)
+        self._c = ("orig-prop-c", i)
+
+    @property
+    def c(self):
+        return self._c
+
+    @c.setter
+    def c(self, value):
+        self._c = value
+
+
+_MISSING = ("missing",)
+
+
+def observe_obj(o):
+    """What a user can see of the patchable attributes (identity matters, storage does not)."""
+    return {name: getattr(o, name, _MISSING) for name in ("a", "b", "c")}
 
 
 class Env:
@@ -343,8 +387,8 @@ class Env:
         self.prog = prog
         self.world = world
         self.reset_sources()
-        self.objs = [Scratch(i) for i in range(prog["nobjs"])]
-        self.obj_snap = [dict(o.__dict__) for o in self.objs]
+        self.objs = [(SlotScratch(i) if i % 2 else Scratch(i)) for i in range(prog["nobjs"])]
+        self.obj_snap = [observe_obj(o) for o in self.objs]
         self.handler_log = []   # (seq, hid, exc marker/class)
         self.op_obs = []        # local observations of assert/expect ops
         self.clobbered = []     # bytes of details a user addDetail replaced
@@ -377,6 +421,35 @@ def _make_exc(kind, marker, extra=None):
     raise AssertionError(kind)
 
 
+class Reason:
+    """A skip reason that is not a str but can be cast to one."""
+
+    def __init__(self, text):
+        self.text = text
+
+    def __str__(self):
+        return self.text
+
+
+def skip_reason_text(marker, extra):
+    """What the reason of a scripted skip reads as."""
+    if extra == "int":
+        return str(int(marker[2:-1]))
+    if extra == "none":
+        return None
+    return marker
+
+
+def _multi_exc(parts):
+    infos = []
+    for p in parts:
+        if p[0] == "multi":
+            infos.append(_exc_info_of(_multi_exc(p[1])))
+        else:
+            infos.append(_exc_info_of(_make_exc(p[0], p[1])))
+    return MultipleExceptions(*infos)
+
+
 def _exc_info_of(exc):
     try:
         raise exc
@@ -394,10 +467,15 @@ def _do_raise(case, kind, marker, extra):
         case.expectFailure("reason-" + marker, lambda: None)
         raise AssertionError("expectFailure returned")  # pragma: no cover
     if kind == "skip":
+        if extra == "int":
+            case.skipTest(int(marker[2:-1]))
+        if extra == "none":
+            raise case.skipException()
+        if extra == "obj":
+            case.skipTest(Reason(marker))
         case.skipTest(marker)
     if kind == "multi":
-        infos = [_exc_info_of(_make_exc(k, m)) for k, m in extra]
-        raise MultipleExceptions(*infos)
+        raise _multi_exc(extra)
     raise _make_exc(kind, marker, extra)
 
 
@@ -602,17 +680,28 @@ class Model:
         """Record what propagates out of a stage for one raise op."""
         h = tuple(self.handlers)
         if kind == "multi":
-            for k, m in extra:
-                self.R.append(Raised(k, m, stage, tb_marker=(None if k == "skip" else m), handlers=h, part=True))
+            self._multi(extra, stage, h)
         elif kind == "xfail":
             self.R.append(Raised("xfail", marker, stage, tb_marker=extra, handlers=h))
         elif kind == "uxsuccess":
             self.R.append(Raised("uxsuccess", marker, stage, handlers=h))
         elif kind == "skip":
-            self.R.append(Raised("skip", marker, stage, handlers=h))
+            self.R.append(Raised("skip", marker, stage, handlers=h, extra=extra))
         else:
             self.R.append(Raised(kind, marker, stage, extra=extra, tb_marker=marker, handlers=h))
         raise _StageAbort()
+
+    def _multi(self, parts, stage, h):
+        if not parts:
+            # nothing inside: the MultipleExceptions itself is what user code raised (an Exception)
+            self.R.append(Raised("emptymulti", None, stage, handlers=h, part=False))
+            return
+        for p in parts:
+            if p[0] == "multi":
+                self._multi(p[1], stage, h)
+            else:
+                k, m = p
+                self.R.append(Raised(k, m, stage, tb_marker=(None if k == "skip" else m), handlers=h, part=True))
 
     def _ops(self, ops, stage):
         for item in ops:
@@ -757,6 +846,7 @@ _ISA = {
     "error": {"exception"},
     "suberror": {"exception"},
     "setuperror": {"exception"},
+    "emptymulti": {"exception"},
     "skip": {"skipk", "exception"},
     "subskip": {"skipk", "exception"},
     "xfail": {"xfail", "exception"},
